@@ -113,3 +113,53 @@ Theorem pair_token_order_of_source_is_model :
     (gen_token_ordering_for_lists (PList (map (fun l => PList (map PInt l)) lists)))
   = PList (map PInt (order (List.concat lists) toks)).
 Proof. exact order_using_gen_lists. Qed.
+
+(* tie of candidate generation to the source: index/position_index.py (build) and
+   filter/position_filter.py (find_candidates), as REGENERATED on this run (Gen/IndexGen.v), compute
+   for EVERY indexed row c and probe Y exactly the pairwise model's verdict pos_cand -- the
+   inverted index over all rows, the eager overlap-threshold cache, the clamping of the size
+   window to [min_length, max_length] and the early exit on an empty index are all immaterial *)
+From SSJ Require Import IndexGen IndexPyFacts IndexBuildFacts IndexProbeFacts IndexRefine.
+Theorem position_index_code_refines_model :
+  forall (p : fparams) (attr ordering : pyval) (tokenize : pyval -> pyval) (rows : list pyval)
+         (ordered : list (list Z)) (ce ct : bool),
+  Forall2 (row_ok attr ordering tokenize) rows ordered ->
+  (forall x, In x ordered -> exists kx, g_pl p (len x) = PInt kx) ->
+  forall (Y : list Z) (lb ub k : Z),
+  g_lb p (len Y) = PInt lb -> g_ub p (len Y) = PInt ub -> g_pl p (len Y) = PInt k ->
+  (forall s, 0 <= s -> lb <= s <= ub -> num_of (g_ot p s (len Y)) <> None) ->
+  exists (index size_cache : pyval) (mn mx : Z) (ret cands : pyval),
+    position_index_build (PList rows) attr (PStr (fm p)) (ft p) ordering (PBool ce) (PBool ct)
+                         (PInt (fq p)) tokenize
+    = PTuple [index; size_cache; PInt mn; PInt mx; ret] /\
+    position_filter_find_candidates (PStr (fm p)) (ft p) (pints Y) index size_cache (PInt mn) (PInt mx)
+                                    (PInt (fq p)) = cands /\
+    forall c : nat, (c < List.length ordered)%nat ->
+      (0 < dict_val cands (Z.of_nat c) <-> exists v, pos_cand p (nth c ordered []) Y = Some v /\ 0 < v).
+Proof. exact position_candidate_positive. Qed.
+Print Assumptions position_index_code_refines_model.
+From SSJ Require Import IndexPrefix IndexSize.
+Theorem prefix_index_code_refines_model :
+  forall (p : fparams) (attr ordering : pyval) (tokenize : pyval -> pyval) (rows : list pyval)
+         (ordered : list (list Z)) (ce : bool) (Y : list Z) (k : Z),
+  Forall2 (row_ok attr ordering tokenize) rows ordered ->
+  (forall x, In x ordered -> exists kx, g_pl p (len x) = PInt kx) ->
+  g_pl p (len Y) = PInt k ->
+  exists (index ret : pyval) (d : sset),
+    prefix_index_build (PList rows) attr (PStr (fm p)) (ft p) ordering (PBool ce) (PInt (fq p)) tokenize
+    = PTuple [index; ret] /\
+    prefix_filter_find_candidates (PStr (fm p)) (ft p) (pints Y) index (PInt (fq p)) = srepr d /\
+    NoDup (map fst d) /\
+    forall c : nat, (c < List.length ordered)%nat -> prefix_cand p (nth c ordered []) Y = Some (smem d (Z.of_nat c)).
+Proof. exact prefix_find_candidates_refines. Qed.
+Theorem size_index_code_refines_model :
+  forall (p : fparams) (attr : pyval) (tokenize : pyval -> pyval) (rows : list pyval)
+         (ns : list Z) (ce : bool) (ny lb ub : Z),
+  Forall2 (zrow_ok attr tokenize) rows ns -> (forall n, In n ns -> 0 <= n) ->
+  g_lb p ny = PInt lb -> g_ub p ny = PInt ub ->
+  exists (index : pyval) (mn mx : Z) (ret : pyval) (d : sset),
+    size_index_build (PList rows) attr (PBool ce) tokenize = PTuple [index; PInt mn; PInt mx; ret] /\
+    size_filter_find_candidates (PStr (fm p)) (ft p) (PInt ny) index (PInt mn) (PInt mx) = srepr d /\
+    forall c : nat, (c < List.length ns)%nat -> smem d (Z.of_nat c) = size_cand p (nth c ns 0) ny.
+Proof. exact size_find_candidates_refines. Qed.
+Print Assumptions size_index_code_refines_model.
